@@ -425,8 +425,133 @@ func c12SharedProperty(c *wk.Ctx) {
 	c.Eval(wk.Hash64("directed-shared-property"), true)
 }
 
+// c12UnitVariants: the spellings a units definition accepts are decided by the definition alone, not by what it has
+// been asked before. Per round: one generated (or built-in-shaped) definition built twice from the same recipe. On the
+// 'used' one a well-formed string is parsed first, then its near-variants (a space / tab inside a digit run or a name,
+// all spaces removed, a character dropped or doubled, a letter's case changed), every one three times and in two
+// orders, through ParseInt, ParseFloat and the Unserialize / ValidateCompatibility of int and float schemas; the twin is
+// asked each variant cold, the well-formed original last. Outcomes (value, or rejection) must be the same on both.
+func c12UnitVariants(c *wk.Ctx, from, to int) {
+	bi := builtinUnits()
+	for i := from; i < to; i++ {
+		r := wk.NewRand(c.Seed, "C12-unit-variants", int64(i))
+		var ref *refUnits
+		mk := func() *schema.UnitsDefinition {
+			if i%4 == 0 {
+				b := bi[(i/4)%len(bi)].ref
+				ref = b
+				mm := map[int64]*schema.UnitDefinition{}
+				for _, m := range b.mults {
+					mm[m.mult] = schema.NewUnit(m.names[0], m.names[1], m.names[2], m.names[3])
+				}
+				return schema.NewUnits(schema.NewUnit(b.base.names[0], b.base.names[1], b.base.names[2], b.base.names[3]), mm)
+			}
+			rf, d := genUnits(wk.NewRand(c.Seed, "C12-unit-variants-def", int64(i)), fmt.Sprintf("uv-%d", i))
+			ref = rf
+			return d
+		}
+		used, cold := mk(), mk()
+		type asker struct {
+			name string
+			ask  func(d *schema.UnitsDefinition, s string) string
+		}
+		askers := []asker{
+			{"ParseInt", func(d *schema.UnitsDefinition, s string) string { v, err := d.ParseInt(s); return fmt.Sprint(v, err == nil) }},
+			{"ParseFloat", func(d *schema.UnitsDefinition, s string) string { v, err := d.ParseFloat(s); return fmt.Sprint(v, err == nil) }},
+			{"IntSchema.Unserialize", func(d *schema.UnitsDefinition, s string) string {
+				v, err := schema.NewIntSchema(nil, nil, d).Unserialize(s)
+				return fmt.Sprint(v, err == nil)
+			}},
+			{"FloatSchema.Unserialize", func(d *schema.UnitsDefinition, s string) string {
+				v, err := schema.NewFloatSchema(nil, nil, d).Unserialize(s)
+				return fmt.Sprint(v, err == nil)
+			}},
+			{"IntSchema.ValidateCompatibility", func(d *schema.UnitsDefinition, s string) string {
+				return fmt.Sprint(schema.NewIntSchema(nil, nil, d).ValidateCompatibility(s) == nil)
+			}},
+		}
+		for round := 0; round < 6; round++ {
+			s := genWellFormed(r, ref, r.Chance(30), false)
+			vars := map[string]bool{}
+			add := func(v string) {
+				if v != s {
+					vars[v] = true
+				}
+			}
+			rs := []rune(s)
+			add(strings.Join(strings.Fields(s), ""))
+			add(strings.ReplaceAll(s, " ", ""))
+			for k := 0; k < 10 && len(rs) > 0; k++ {
+				at := r.Intn(len(rs) + 1)
+				switch r.Intn(5) {
+				case 0:
+					add(string(rs[:at]) + " " + string(rs[at:]))
+				case 1:
+					add(string(rs[:at]) + "\t" + string(rs[at:]))
+				case 2:
+					if at < len(rs) {
+						add(string(rs[:at]) + string(rs[at+1:]))
+					}
+				case 3:
+					if at < len(rs) {
+						add(string(rs[:at+1]) + string(rs[at:]))
+					}
+				default:
+					add(swapCase(s, r.Intn(4)))
+				}
+			}
+			var list []string
+			for v := range vars {
+				list = append(list, v)
+			}
+			sort.Strings(list)
+			a := askers[r.Intn(len(askers))]
+			c.Note(fmt.Sprintf("unit-string variants after their original (round %d/%d, %s)", i, round, a.name))
+			var got, want map[string]string
+			pan, site, _, _ := wk.Guard(func() {
+				got, want = map[string]string{}, map[string]string{}
+				a.ask(used, s)
+				for rep := 0; rep < 3; rep++ {
+					for k := range list {
+						v := list[k]
+						if rep == 1 {
+							v = list[len(list)-1-k]
+						}
+						o := a.ask(used, v)
+						if prev, seen := got[v]; seen && prev != o {
+							got[v] = prev + " then " + o
+						} else if !seen {
+							got[v] = o
+						}
+					}
+					a.ask(used, s)
+				}
+				for _, v := range list {
+					want[v] = a.ask(cold, v)
+				}
+				want[s], got[s] = a.ask(cold, s), a.ask(used, s)
+			})
+			if pan {
+				c.Count("unit_variant_rounds_panicked:" + site) // totality is C04's and C16's business
+				continue
+			}
+			c.Count("unit_variant_rounds")
+			c.CountN("probe_evaluations", int64(4*len(list)+5))
+			c.Eval(wk.Hash64("C12-unit-variants", ref.label, s, a.name), true)
+			for _, v := range append(list, s) {
+				if got[v] != want[v] {
+					c.Violation("C12:history-dependent:units:"+a.name, fmt.Sprintf("%s(%q) on a units definition that has parsed %q before gives %s, on a definition built the same way and asked cold %s", a.name, v, s, got[v], want[v]),
+						map[string]any{"definition": ref.describe(), "parsed_before": s, "argument": v, "used": got[v], "cold": want[v]})
+					break
+				}
+			}
+		}
+	}
+}
+
 func runC12(c *wk.Ctx) {
-	c.Meta("rule", "per case: one generated shape built twice (a 'used' and a 'fresh' instance, each with its own self / twin / incompatible-mutant schema arguments); a probe set (valid inputs in random representations, perturbed and hostile inputs for Unserialize; natives for Validate/Serialize; data and schema arguments for ValidateCompatibility) is first evaluated on the fresh instance. The used instance then goes through a random history of 1..30 calls (accepted, rejected and default-filling ones, failing schema comparisons), with a deep snapshot of every argument before and after, and with every container reachable from every returned value overwritten in place. Afterwards each probe is evaluated 16 times on the used instance. Oracle: the argument snapshot is unchanged by the call and by scrambling the result; all 16 evaluations agree; they equal the fresh instance's outcome; SelfSerialize of the used scope equals that of the fresh one. distinct = hash(shape, history); non-trivial = history length >= 2 Directed: schema comparison of enums in which only some values carry display names (one disagreeing / one missing name), 300 evaluations per pair.")
+	c.Meta("rule", "per case: one generated shape built twice (a 'used' and a 'fresh' instance, each with its own self / twin / incompatible-mutant schema arguments); a probe set (valid inputs in random representations, perturbed and hostile inputs for Unserialize; natives for Validate/Serialize; data and schema arguments for ValidateCompatibility) is first evaluated on the fresh instance. The used instance then goes through a random history of 1..30 calls (accepted, rejected and default-filling ones, failing schema comparisons), with a deep snapshot of every argument before and after, and with every container reachable from every returned value overwritten in place. Afterwards each probe is evaluated 16 times on the used instance. Oracle: the argument snapshot is unchanged by the call and by scrambling the result; all 16 evaluations agree; they equal the fresh instance's outcome; SelfSerialize of the used scope equals that of the fresh one. distinct = hash(shape, history); non-trivial = history length >= 2 Directed: schema comparison of enums in which only some values carry display names (one disagreeing / one missing name), 300 evaluations per pair. Directed: unit strings - a well-formed string is parsed on a units definition, then its near-variants (whitespace inside digit runs and names, dropped / doubled characters, case changes) three times in two orders; every outcome equals that of a definition built the same way and asked cold.")
+	c.Floor("unit_variant_rounds", 100)
 	c.Meta("assumptions", []string{"GetDefaults() is deliberately not compared (the SDK extends decoded sub-object defaults in place, which changes that accessor but neither the self-description nor behaviour)",
 		"inputs whose map keys collide after normalisation are excluded from the determinism verdict"})
 	c.Floor("probe_evaluations", 20000)
@@ -456,6 +581,13 @@ func runC12(c *wk.Ctx) {
 		if c.Mine(k) {
 			c.Begin(k, "first evaluations on fresh unit definitions by 8 goroutines")
 			unitsFirstUse(c, "C12", int(k-3)*perShard, int(k-2)*perShard, k%2 == 0)
+		}
+	}
+	perUV := int(c.N(60, 3000))
+	for k := int64(19); k < 35; k++ {
+		if c.Mine(k) {
+			c.Begin(k, "unit-string variants after their original")
+			c12UnitVariants(c, int(k-19)*perUV, int(k-18)*perUV)
 		}
 	}
 	n := c.N(6000, 600000)
